@@ -23,6 +23,21 @@ def cases(draw, tier):
     nl = draw(gen.netlists(min_inputs=0, max_inputs=6 if big else 5, max_gates=30 if big else 18, types=types,
                            max_arity=4, styles=('plain', 'digits', 'mixed'), max_outputs=4,
                            dup_rate=draw(st.sampled_from([0, 0, 3])), const_operands=(0, 0, 2, 1)))
+    forced_route = None
+    pool = [g[0] for g in nl['gates'] if g[0] != '']
+    if len(pool) >= 2 and draw(st.integers(0, 3)) == 0:
+        # a comparison reading a (pseudo-)negation, the negation stored AFTER its reader (renamed away and back, as a caller
+        # tidying up labels would leave it)
+        p_, q_, r_ = (pool[draw(st.integers(0, len(pool) - 1))] for _ in range(3))
+        tn = draw(st.sampled_from(['RNOT', 'RNOT', 'LNOT', 'NOT', 'RIFF', 'LIFF']))
+        tc = draw(st.sampled_from(['LT', 'LEQ', 'GT', 'GEQ']))
+        ng, cg = 'cmp_n', 'cmp_c'
+        while ng in pool or cg in pool:
+            ng, cg = ng + '_', cg + '_'
+        side = draw(st.booleans())
+        gates = [list(g) for g in nl['gates']] + [[ng, tn, [p_] if tn == 'NOT' else [p_, q_]], [cg, tc, [ng, r_] if side else [r_, ng]]]
+        nl = dict(nl, gates=gates, outputs=list(nl['outputs']) + [cg])
+        forced_route = {'kind': 'rename', 'moves': [len(gates) - 2] + [draw(st.integers(0, len(gates) - 1)) for _ in range(draw(st.integers(0, 2)))]}
     labs = [g[0] for g in nl['gates']]
     blocks = []
     if labs:
@@ -37,7 +52,8 @@ def cases(draw, tier):
                            # an explicit input list may name anything, also members of the block itself
                            'inputs': [draw(st.integers(0, len(labs) - 1)) for _ in range(draw(st.integers(0, 3)))]
                            + ([members[0]] if draw(st.booleans()) else [])})
-    return {'nl': nl, 'route': draw(gen.routes(nl)), 'blocks': blocks, 'uuid_seed': draw(st.integers(0, 2 ** 20)),
+    return {'nl': nl, 'route': forced_route if forced_route and draw(st.integers(0, 3)) else draw(gen.routes(nl)), 'blocks': blocks,
+            'uuid_seed': draw(st.integers(0, 2 ** 20)),
             'entry': draw(st.sampled_from(['into_bench', 'into_bench', 'into_bench', 'convert_gate']))}
 
 
@@ -72,23 +88,21 @@ def verify(c, ret, nl, blocks_before):
     new_labels = [l for l in rtyp if l not in typ]
     n_rewritten = sum(1 for l in labs if typ[l] in REWRITTEN)
     for nlab in new_labels:
-        if rtyp[nlab] != 'NOT':
-            raise Violation('helper_type', f'new gate {nlab} is {rtyp[nlab]}')
-        us = list(c.get_gate_users(nlab))
-        if len(us) != 1 or typ.get(us[0]) not in HELPER:
-            raise Violation('helper_users', f'helper {nlab} is used by {us}')
-        g0 = us[0]
+        # (how many helpers a rewrite needs, of which type, and whether rewrites share one is the library's business: the
+        # statement places them - a helper goes where the rewritten gates reading it were)
+        us = [u for u in c.get_gate_users(nlab) if u in typ]
+        if not us:
+            continue
         for name, members in blocks_before.items():
             inb = nlab in c.get_block(name).gates
-            if (g0 in members) != inb:
-                raise Violation('helper_block', f'helper {nlab} of gate {g0}: block {name} contains the gate: {g0 in members}, the helper: {inb}')
-    exp_helpers = sum(1 for l in labs if typ[l] in HELPER)
-    if len(new_labels) != exp_helpers:
-        raise Violation('helper_count', f'{len(new_labels)} new gates for {exp_helpers} gates that need a helper')
+            if all(u in members for u in us) and not inb:
+                raise Violation('helper_block', f'helper {nlab} of gate(s) {us}: block {name} contained the gate(s) but not the helper')
+            if not any(u in members for u in us) and inb:
+                raise Violation('helper_block', f'helper {nlab} of gate(s) {us}: block {name} contains the helper but none of the gates')
     for name, members in blocks_before.items():
         now = list(c.get_block(name).gates)
-        if [x for x in now if x in typ] != members:
-            raise Violation('block_members', f'block {name} lost or reordered members')
+        if sorted(x for x in now if x in typ) != sorted(members):
+            raise Violation('block_members', f'block {name} lost members (or took in gates that existed before)')
     return n_rewritten
 
 
